@@ -282,6 +282,16 @@ def boundary_vectors(rng, n):
     v["abs_sq"][:] = 0
     v["M"] = sp.csr_array((n, n), dtype=np.complex128)
     vs.append(v)
+    # an order parameter that is tiny EVERYWHERE but not zero (a film held normal for a while): perfectly representable
+    # numbers, the equation is as well conditioned as for |psi| ~ 1, and psi = 0 must not become an absorbing state
+    for scale in (1e-17, 1e-25):
+        v = gen_vector(rng, n)
+        v["psi"] = (scale * rng.uniform(0.5, 1.0, size=n) * np.exp(1j * rng.uniform(0, 2 * np.pi, size=n))).astype(np.complex128)
+        v["abs_sq"] = np.absolute(v["psi"]) ** 2
+        v["mu"] = rng.uniform(-1, 1, size=n)
+        v["dt"] = float(rng.choice([1e-3, 0.1]))
+        v["M"] = sp.csr_array((n, n), dtype=np.complex128)
+        vs.append(v)
     return vs
 
 
